@@ -22,7 +22,7 @@ Definition call (e : N) (p : list N) (d tail : bytes) : res rows :=
   else if e =? 5 then parse_padt d tail
   else if e =? 6 then parse_echo d
   else if e =? 7 then handle_discovery (pnth p 0) d tail
-  else if e =? 8 then handle_session (pnth p 0) d tail
+  else if e =? 8 then handle_session (pnth p 0) (pnth p 1) d tail
   else if e =? 9 then (x <- create_session (used_of p) (count_of p) (pnth p 1) ;; Ok [[fst x; snd x]])
   else if e =? 10 then lcp_receive (pnth p 0) (pnth p 1) d
   else if e =? 11 then ipcp_receive (pnth p 0) (pnth p 1) d
